@@ -25,6 +25,9 @@ type c08Case struct {
 	Part    string   `json:"part"` // "bfs" | "credit"
 	World   int      `json:"world,omitempty"`
 	Hist    []int    `json:"hist,omitempty"`
+	Prog    []int    `json:"prog,omitempty"`   // psia part
+	Ending  string   `json:"ending,omitempty"` // psia part
+	Gas     int64    `json:"gas,omitempty"`    // psia part
 	Balance uint64   `json:"balance,omitempty"`
 	Amounts []uint64 `json:"amounts,omitempty"`
 }
@@ -532,6 +535,179 @@ func c08CreditCases() []c08Case {
 	return out
 }
 
+// ------------------------------------------------------------------ psia part
+//
+// The real Psi_A end to end on assembled programs `op ; op ; … ; ending`: conservation is judged on
+// the context Psi_A RETURNS (x after a halt, y — the last checkpoint or the imported state — after a
+// panic or out-of-gas), so leaks between the two contexts and into the caller's state are in scope.
+
+var c08PsiaOps = []string{"new(l=0)", "transfer(other,10)", "eject(victim)", "upgrade", "checkpoint"}
+var c08PsiaEndings = []string{"halt", "trap", "hostcall-panic"}
+
+const (
+	c08PsiaRO      = uint64(0x10000)
+	c08PsiaOffCode = 0x00
+	c08PsiaOffMemo = 0x40
+	c08PsiaOffHV   = 0xC0
+	c08PsiaOffUp   = 0xE0
+	c08PsiaCredit  = 7
+)
+
+func c08PsiaAssemble(prog []int, ending string) (code []byte, total int64) {
+	ro := make([]byte, 0x100)
+	nc := hcHash([]byte("c08-new-code"))
+	copy(ro[c08PsiaOffCode:], nc[:])
+	copy(ro[c08PsiaOffHV:], c08HV[:])
+	up := hcHash([]byte("c08-upgrade"))
+	copy(ro[c08PsiaOffUp:], up[:])
+	var a hcAsm
+	a.Trap()
+	a.Fallthrough()
+	a.Fallthrough()
+	a.Fallthrough()
+	a.Fallthrough() // accumulate entry = pc 5
+	entry := len(a.starts)
+	set := func(reg int, v uint64) { a.LoadImm64(reg, v) }
+	for _, op := range prog {
+		switch op {
+		case 0:
+			set(7, c08PsiaRO+c08PsiaOffCode)
+			set(8, 0)
+			set(9, 1)
+			set(10, 2)
+			set(11, 0)
+			set(12, 0)
+			a.Ecalli(uint64(NewOp))
+		case 1:
+			set(7, uint64(c08Other))
+			set(8, 10)
+			set(9, 0)
+			set(10, c08PsiaRO+c08PsiaOffMemo)
+			a.Ecalli(uint64(TransferOp))
+		case 2:
+			set(7, uint64(c08Victim))
+			set(8, c08PsiaRO+c08PsiaOffHV)
+			a.Ecalli(uint64(EjectOp))
+		case 3:
+			set(7, c08PsiaRO+c08PsiaOffUp)
+			set(8, 7)
+			set(9, 3)
+			a.Ecalli(uint64(UpgradeOp))
+		case 4:
+			a.Ecalli(uint64(CheckpointOp))
+		}
+	}
+	switch ending {
+	case "halt":
+		set(7, c08PsiaRO)
+		set(8, 0)
+		a.Halt()
+	case "trap":
+		a.Trap()
+	case "hostcall-panic":
+		set(7, 0x3000)
+		a.Ecalli(uint64(YieldOp))
+		a.Trap()
+	}
+	total = int64(len(a.starts)-entry) + 10*int64(len(prog))
+	return hcMetaCode(hcStandardProgram(ro, nil, 0, 4096, a.Blob())), total
+}
+
+func c08PsiaSum(ps types.PartialStateSet, ts []types.DeferredTransfer) *big.Int {
+	sum := big.NewInt(0)
+	for _, a := range ps.ServiceAccounts {
+		sum.Add(sum, hcBig(uint64(a.ServiceInfo.Balance)))
+	}
+	for _, t := range ts {
+		sum.Add(sum, hcBig(uint64(t.Balance)))
+	}
+	return sum
+}
+
+func c08Psia(r *vlib.Run, c c08Case) {
+	asmEnding := c.Ending
+	if c.Ending == "oog" {
+		asmEnding = "halt"
+	}
+	code, _ := c08PsiaAssemble(c.Prog, asmEnding)
+	codeHash := hcHash(code)
+	caller := hcAccount(0, codeHash, map[string][]byte{"k": {1, 2}}, nil, map[types.OpaqueHash][]byte{codeHash: code})
+	caller.ServiceInfo.Balance = 1_000_000
+	other := hcAccount(7000, types.OpaqueHash{2}, nil, nil, nil)
+	var vcode types.OpaqueHash
+	copy(vcode[:], hcLE(uint64(c08Caller), 32))
+	victim := hcAccount(5000, vcode, nil, map[types.LookupMetaMapkey]types.TimeSlotSet{{Hash: c08HV, Length: 9}: {5, 10}}, nil)
+	ps := types.PartialStateSet{
+		ServiceAccounts: types.ServiceAccountState{c08Caller: caller, c08Other: other, c08Victim: victim},
+		ValidatorKeys:   make(types.ValidatorsData, 1),
+		Authorizers:     types.AuthQueues{make(types.AuthQueue, 1), make(types.AuthQueue, 1)},
+		Assign:          types.ServiceIDList{0, 0},
+		AlwaysAccum:     types.AlwaysAccumulateMap{},
+		CreateAcct:      77777,
+	}
+	ops := []types.OperandOrDeferredTransfer{{DeferredTransfer: &types.DeferredTransfer{SenderID: c08Other, ReceiverID: c08Caller, Balance: c08PsiaCredit}}}
+	before := c08PsiaSum(ps, nil)
+	before.Add(before, big.NewInt(c08PsiaCredit))
+	var res Psi_A_ReturnType
+	p, msg, site := vlib.Guard(func() {
+		res = Psi_A(ps, c08Slot, c08Caller, types.Gas(c.Gas), ops, types.Entropy{3}, types.StateKeyVals{})
+	})
+	r.Eval()
+	r.Transition()
+	desc := "Psi_A program "
+	for i, op := range c.Prog {
+		if i > 0 {
+			desc += " ; "
+		}
+		desc += c08PsiaOps[op]
+	}
+	desc += fmt.Sprintf(" ; ending %s ; gas %d", c.Ending, c.Gas)
+	if p {
+		r.Class("psia go-panic")
+		r.Violation(site, "go-panic", "psia ending="+c.Ending, desc+": Go panic "+msg, c)
+		return
+	}
+	after := c08PsiaSum(res.PartialStateSet, res.DeferredTransfers)
+	_, gone := res.PartialStateSet.ServiceAccounts[c08Victim]
+	hasCp, hasEj := false, false
+	for _, op := range c.Prog {
+		hasCp = hasCp || op == 4
+		hasEj = hasEj || op == 2
+	}
+	r.Class(fmt.Sprintf("psia ending=%s checkpoint=%v eject-in-program=%v victim-returned=%v transfers=%d", c.Ending, hasCp, hasEj, gone, min(len(res.DeferredTransfers), 2)))
+	if after.Cmp(before) > 0 {
+		r.Violation("PVM.Psi_A", "sum-increased", fmt.Sprintf("psia ending=%s checkpoint=%v", c.Ending, hasCp),
+			fmt.Sprintf("%s: Σ balances + Σ deferred of the returned context is %s, the imported state + incoming transfers hold %s", desc, after, before), c)
+	}
+	if r.WantSample() && len(c.Prog) >= 2 && c.Ending != "halt" {
+		r.Sample(map[string]interface{}{"psia": desc, "sum_in": before.String(), "sum_returned": after.String()})
+	}
+}
+
+func c08PsiaPart(r *vlib.Run) {
+	maxLen := vlib.Pick(r, 3, 4)
+	idx := uint64(1 << 43)
+	for n := 0; n <= maxLen; n++ {
+		vlib.Sequences(len(c08PsiaOps), n, func(sq []int) {
+			idx++
+			if !r.Mine(idx) {
+				return
+			}
+			prog := append([]int(nil), sq...)
+			for _, e := range c08PsiaEndings {
+				r.Space(1)
+				c08Psia(r, c08Case{Part: "psia", Prog: prog, Ending: e, Gas: 100000})
+			}
+			_, total := c08PsiaAssemble(prog, "halt")
+			for g := int64(0); g < total; g++ {
+				r.Space(1)
+				c08Psia(r, c08Case{Part: "psia", Prog: prog, Ending: "oog", Gas: g})
+			}
+			r.Trace()
+		})
+	}
+}
+
 func TestVerif_C08(t *testing.T) {
 	r := vlib.Start(t, "C08")
 	defer r.Finish()
@@ -541,6 +717,8 @@ func TestVerif_C08(t *testing.T) {
 	if r.IsReplay(&rc) {
 		if rc.Part == "credit" {
 			c08Credit(r, rc)
+		} else if rc.Part == "psia" {
+			c08Psia(r, rc)
 		} else {
 			c08Step(r, evs, rc.World, rc.Hist, true)
 		}
@@ -554,6 +732,8 @@ func TestVerif_C08(t *testing.T) {
 		r.Space(1)
 		c08Credit(r, c)
 	}
+
+	c08PsiaPart(r)
 
 	if c08Step(r, evs, 0, []int{0, 9, 45}, false) != c08Step(r, evs, 0, []int{0, 9, 45}, false) {
 		r.Violation("harness", "nondeterministic-rebuild", "c08", "two rebuilds of the same history differ", c08Case{Part: "bfs"})
